@@ -89,12 +89,14 @@ type Insertion struct {
 	AbsorbRef int      // >=0: this `if` absorbs reference statements in branch AbsorbRef
 	Case      *ast.CaseClause // set for an inserted case clause of a matched switch
 	Stripped  []ast.Expr      // for a *matched* statement: fork-zero terms / extra literal keys removed to match
+	Run       string          // the run of unmatched statements (between two matched neighbours) this insertion lies in
 }
 
 type FuncDelta struct {
 	Name      string
 	RefOnly   []ast.Stmt // reference statements without a fork match
 	RefOnlyAt []string
+	RefOnlyRun []string // the run of unmatched statements each lost reference statement lies in
 	Ins       []*Insertion
 	Strips    []*Insertion // matched statements that needed stripping
 	Matched   int
@@ -335,6 +337,8 @@ func (e *embedder) matched(r, f ast.Stmt, strips []ast.Expr, ctx string) {
 }
 
 // unmatchedRun handles a maximal run of unmatched statements between two matches.
+var runCounter int
+
 func (e *embedder) unmatchedRun(ref, fork []ast.Stmt, pr, pf []int, ctx string) {
 	if len(pr) > 0 {
 		// try: all pending reference statements embed into exactly one branch of one inserted `if`
@@ -378,12 +382,16 @@ func (e *embedder) unmatchedRun(ref, fork []ast.Stmt, pr, pf []int, ctx string) 
 			}
 		}
 	}
+	// all statements handled by one call lie between the same two matched neighbours
+	runCounter++
+	run := fmt.Sprintf("run%d", runCounter)
 	for _, i := range pr {
 		e.d.RefOnly = append(e.d.RefOnly, ref[i])
 		e.d.RefOnlyAt = append(e.d.RefOnlyAt, ctx)
+		e.d.RefOnlyRun = append(e.d.RefOnlyRun, run)
 	}
 	for _, j := range pf {
-		e.d.Ins = append(e.d.Ins, &Insertion{Stmt: fork[j], Ctx: ctx, AbsorbRef: -1})
+		e.d.Ins = append(e.d.Ins, &Insertion{Stmt: fork[j], Ctx: ctx, AbsorbRef: -1, Run: run})
 	}
 }
 
